@@ -73,6 +73,15 @@ impl<Consumer> Pool<Consumer>
     }
 }
 
+#[cfg(cached_verif)]
+impl<Consumer> Pool<Consumer>
+    where Consumer: BufferConsumer {
+    /// The key hashes currently held by each buffer. Simulation harness only.
+    pub(crate) fn verif_buffered(&self) -> Vec<Vec<KeyHash>> {
+        self.buffers.iter().map(|buffer| buffer.read().key_hashes.clone()).collect()
+    }
+}
+
 #[cfg(test)]
 mod tests {
     use std::sync::Arc;
